@@ -35,7 +35,7 @@ func (p uriParts) String() string { return p.Scheme + ":" + p.Host + p.Port + p.
 var (
 	c17Schemes = []string{"stun", "stuns", "turn", "turns", "http", "stunx", "STUN", "Turns"}
 	c17Hosts   = []string{"example.org", "a", "a.b-c.d", "1.2.3.4", "[::1]", "[fe80::1%25eth0]", "[2001:db8::ff]", "", "[h]", "xn--bcher-kva.example"}
-	c17Ports   = []string{"", ":", ":0", ":1", ":3478", ":5349", ":65535", ":65536", ":99999", ":-1", ":+5", ":12a", ":99999999999999999999", ":0080", ":4294967297"}
+	c17Ports   = []string{"", ":", ":0", ":1", ":3478", ":5349", ":65535", ":65536", ":99999", ":-1", ":+5", ":12a", ":99999999999999999999", ":0080", ":0100", ":09", ":4294967297", ":0x50", ":3_478", ":0b11", ":0o17", ":1e3", ": 80"}
 	c17Queries = []string{"", "?", "?transport=udp", "?transport=tcp", "?transport=UDP", "?transport=sctp", "?transport=", "?transport=udp&x=1", "?x=1", "?transport=udp&transport=tcp", "?transport=tcp&transport=udp", "?transport", "?Transport=udp", "?transport=udp&", "?x=1&y=2"}
 )
 
@@ -81,8 +81,11 @@ func c17Oracle(p uriParts) c17Expect {
 	case ":65535":
 		e.Port = 65535
 	case ":0080":
-		e.Port = 80
-		ambiguous = true
+		e.Port = 80 // port = *DIGIT: leading zeros are decimal digits
+	case ":0100":
+		e.Port = 100
+	case ":09":
+		e.Port = 9
 	case ":+5":
 		e.Port = 5
 		ambiguous = true // a sign is not a digit, but the property only demands the range
@@ -90,7 +93,7 @@ func c17Oracle(p uriParts) c17Expect {
 		return c17Expect{MustReject: true, Why: "empty port"}
 	case ":65536", ":99999", ":-1", ":99999999999999999999", ":4294967297":
 		return c17Expect{MustReject: true, Why: "port out of range " + p.Port}
-	case ":12a":
+	case ":12a", ":0x50", ":3_478", ":0b11", ":0o17", ":1e3", ": 80":
 		return c17Expect{MustReject: true, Why: "non-numeric port"}
 	default:
 		panic("c17Oracle: unknown port component " + p.Port)
@@ -443,6 +446,50 @@ func c17DialCheck(c *Ctx, d c17Dial) {
 	}
 }
 
+// c17DialReuse: one DialConfig used for two secure TCP dials to different hosts, and a DialConfig whose
+// TLSConfig.ServerName is preset: the server name on the wire must be the host of the URI being dialled.
+func c17DialReuse(c *Ctx, scheme int, preset bool) {
+	c.Eval(1)
+	c.DistinctBytes([]byte(fmt.Sprintf("dialreuse %d %v", scheme, preset)))
+	rp := map[string]interface{}{"kind": "dialreuse", "scheme": scheme, "preset": preset}
+	nw := &recNet{}
+	cfg := &stun.DialConfig{Net: nw}
+	hosts := []string{"first.example.org", "second.example.net"}
+	if preset {
+		cfg.TLSConfig.ServerName = "preset.example.com"
+		hosts = hosts[:1]
+	}
+	for i, h := range hosts {
+		u := &stun.URI{Scheme: stun.SchemeType(scheme), Proto: stun.ProtoTypeTCP, Host: h, Port: 5349}
+		var cl *stun.Client
+		var err error
+		if pn := catch(func() { cl, err = stun.DialURI(u, cfg) }); pn != "" || err != nil {
+			c.Violation("dial-fails", fmt.Sprintf("DialURI(%+v) on a reused DialConfig: %v %s", *u, err, pn), rp)
+			return
+		}
+		conn := nw.conns[i]
+		go func() { _ = cl.Indicate(stun.MustBuild(stun.TransactionID, stun.BindingRequest)) }()
+		select {
+		case <-conn.first:
+		case <-time.After(20 * time.Second):
+			c.Fail("DialURI(%+v): nothing written within 20 s", *u)
+		}
+		conn.mu.Lock()
+		first := append([]byte(nil), conn.writes[0]...)
+		conn.mu.Unlock()
+		pat := append([]byte{0x00, byte(len(h) >> 8), byte(len(h))}, h...)
+		if !bytes.Contains(first, pat) {
+			c.Violation("secure-scheme-sni", fmt.Sprintf("dial %d with a shared DialConfig (preset ServerName: %v): ClientHello does not carry %q as server name", i+1, preset, h), rp)
+			conn.Close()
+			cl.Close()
+			return
+		}
+		conn.Close()
+		cl.Close()
+	}
+	c.Outcome("dial/reuse-ok")
+}
+
 func sameHostPort(a, b string) bool {
 	ha, pa, e1 := net.SplitHostPort(a)
 	hb, pb, e2 := net.SplitHostPort(b)
@@ -517,6 +564,14 @@ func init() {
 					}
 				}
 			}
+			for _, scheme := range []int{int(stun.SchemeTypeSTUNS), int(stun.SchemeTypeTURNS)} {
+				for _, preset := range []bool{false, true} {
+					j++
+					if c.Mine(j) {
+						c17DialReuse(c, scheme, preset)
+					}
+				}
+			}
 			c.Extra("sigma_max_length", float64(maxLen))
 			c.Extra("grammar_product", []int{len(c17Schemes), len(c17Hosts), len(c17Ports), len(c17Queries)})
 		},
@@ -542,6 +597,13 @@ func init() {
 				}
 			case "dial":
 				c17DialCheck(c, r.Dial)
+			case "dialreuse":
+				var rr struct {
+					Scheme int  `json:"scheme"`
+					Preset bool `json:"preset"`
+				}
+				_ = json.Unmarshal(p, &rr)
+				c17DialReuse(c, rr.Scheme, rr.Preset)
 			}
 		},
 	}
